@@ -483,10 +483,41 @@ def sanitize(ln):
     return True
 
 
+def label_lifecycle(rng, dev):
+    """define a label, use it, delete it, type the SAME line again (it must now be rejected and change nothing),
+    optionally define it again elsewhere and type the line a third time (the new address counts)."""
+    W, AW = WIDTHS[dev]
+    am = (1 << AW) - 1
+
+    def mk(cmd, args, cls):
+        t = cmd + (' ' + args if args else '')
+        return Line(t, canon=t, cmd=cmd, argclass=cls, noise='none', quit=False)
+    name = rng.choice(['foo', 'bar', 'L1', 'start'])
+    v = rng.choice([0x10, 0x200, 0xc000, 0xfffe, am, rng.randrange(am + 1)])
+    v2 = rng.choice([0x20, 0x300, 0xd000, am - 1, rng.randrange(am + 1)])
+    opnd = rng.choice([name, name, '%s+1' % name, '%s-$1' % name]) if 0 < v < am else name
+    use = rng.choice([('fill', '%s bb' % opnd, 'fill-label'), ('fill', '%s:%s 1 2' % (opnd, opnd), 'fill-label'),
+                      ('registers', 'pc=%s' % opnd, 'regs-label'), ('add_breakpoint', opnd, 'ab-label'),
+                      ('add_label', '%s other' % opnd, 'al-label'), ('tilde', opnd, 'tilde-label'),
+                      ('mem', opnd, 'mem-label'), ('assemble', '%s nop' % opnd, 'asm-label'),
+                      ('disassemble', opnd, 'dis-label')])
+    # undo the first use, so that a wrongly accepted second use is a visible state change
+    undo = {'registers': [mk('registers', 'pc=$1', 'regs-ok')], 'add_label': [mk('delete_label', 'other', 'dl')],
+            'add_breakpoint': [mk('delete_breakpoint', '0', 'db'), mk('delete_breakpoint', '1', 'db'),
+                               mk('delete_breakpoint', '2', 'db')]}.get(use[0], [])
+    out = [mk('add_label', '%s %s' % (hexs(v), name), 'al-ok'), mk(*use), mk('delete_label', name, 'dl')] + undo + [mk(*use)]
+    if rng.random() < 0.5:
+        out += [mk('add_label', '%s %s' % (hexs(v2), name), 'al-ok'), mk(*use)]
+    return out
+
+
 def gen_session(rng, dev):
     n = rng.choice([1, 2, 3, 5, 8, 12, 20, 30])
     lines = []
     while len(lines) < n:
+        if rng.random() < 0.04:
+            lines += label_lifecycle(rng, dev)
+            continue
         if rng.random() < 0.03:
             # `return` needs a reachable RTS: BRK at the current pc vectors to 0
             lines.append(Line('f 0 60', canon='fill 0 60', cmd='fill', argclass='fill-setup', noise='none', quit=False))
@@ -749,6 +780,13 @@ def judge(dev, recs, segs):
                     % (ln.text, seg['verdict'], diff), rec,
                     dict(before={k: before[k] for k in diff}, after={k: after[k] for k in diff}, output=text[-700:]),
                     cmd=mw, refused=seg['verdict'], changed=diff[0])
+        if bad and mw == 'registers' and seg['cls'] in ('cmd', 'repeat') and seg['pairs'] \
+                and all(p != 'ok' for p in seg['pairs']) and before['regs'] != after['regs']:
+            # every name=value pair of the line must be refused (unknown label, too wide, bad name): nothing is assigned
+            finding('rejected-changed', 'onecmd(%r): every pair must be rejected (%s) but the registers changed from %r to %r'
+                    % (ln.text, '/'.join(seg['pairs']), before['regs'], after['regs']), rec,
+                    dict(before=before['regs'], after=after['regs'], output=text[-700:]),
+                    cmd=mw, refused=seg['pairs'][0], changed='regs')
         if bad:
             ties.append(dict(what='model and real monitor disagree on line %d %r of session %r [%s]' % (
                 idx, ln.text, hist[:-1], dev), model='; '.join(bad)[:600], real=text[:300],
